@@ -98,9 +98,63 @@ func needsPos(fn string, buf string, pos int) bool {
 }
 
 // checkScan returns a description of the first violated clause, or "".
+// checkColumns (C06 L1): walk the real tokenizer over buf and compare its column with the offset of the
+// token in its physical line, wherever the contract states it (no newline inside the skipped region or
+// the previous token: the carve-out of known finding F9).
+func checkColumns(buf string) (msg string) {
+	defer func() {
+		if r := recover(); r != nil {
+			msg = "" // scanner diagnostics (unclosed comment, unknown byte) are panics: fine
+		}
+	}()
+	lineStart := func(p int) int {
+		q := p
+		for q > 0 && buf[q-1] != '\n' {
+			q--
+		}
+		return q
+	}
+	noNL := func(a, b int) bool {
+		for k := a; k < b && k < len(buf); k++ {
+			if buf[k] == '\n' {
+				return false
+			}
+		}
+		return true
+	}
+	tkz := newTkz(buf)
+	if noNL(0, tkz.current.begin) && tkz.col != tkz.current.begin-lineStart(tkz.current.begin) {
+		return fmt.Sprintf("newTkz(%q): first token at offset %d has column %d, its offset in the line is %d", buf, tkz.current.begin, tkz.col, tkz.current.begin-lineStart(tkz.current.begin))
+	}
+	ok := noNL(0, tkz.current.begin)
+	for k := 0; k < len(buf)+2; k++ {
+		prev := tkz
+		tkz = tkzNext(tkz)
+		from := prev.current.begin
+		if prev.current.ttype == New_TokenType_EOL {
+			from++
+			ok = true // a line break resets the column
+		}
+		if !noNL(from, tkz.current.begin) {
+			ok = false // carve-out: newline inside the skipped region / previous token
+			continue
+		}
+		if ok && tkz.col != tkz.current.begin-lineStart(tkz.current.begin) {
+			return fmt.Sprintf("tokenizer over %q: token at offset %d has column %d, its offset in the physical line is %d (C06: the column the offside rule compares is the token's offset in its line)", buf, tkz.current.begin, tkz.col, tkz.current.begin-lineStart(tkz.current.begin))
+		}
+		if tkz.current.ttype == New_TokenType_EOF {
+			break
+		}
+	}
+	return ""
+}
+
 func checkScan(fn string, buf string, pos int) string {
 	if !needsPos(fn, buf, pos) {
 		return ""
+	}
+	if fn == "newTkz" || fn == "tkzNext" {
+		return checkColumns(buf)
 	}
 	o := runScanner(fn, buf, pos)
 	if o.hung {
